@@ -18,14 +18,32 @@ def deep_cases(prop):
     out = []
     for op, cl in ((b'[', b']'), (b'{"a":', b'}')):
         for depth in (lim - 1, lim):
-            for la, lb in ((b'"x"', b'"y"'), (b'1', b'2'), (b'{"k":1}', b'{"k":1,"n":null}') if prop == 'C17' else (b'{"k":1}', b'{"k":1,"n":2}'), (b'[1]', b'[1,2]')):
+            for la, lb in ((b'"x"', b'"y"'), (b'1', b'2'), (b'{"k":1}', b'{"k":1,"n":null}') if prop == 'C17' else (b'{"k":1}', b'{"k":1,"n":2}'), (b'{"k":1,"gone":2}', b'{"k":1}'), (b'[1]', b'[1,2]')):
                 if la[:1] in b'{[' and depth == lim:
                     continue
                 if prop == 'C18' and op == b'[':
                     continue      # merge patches replace arrays wholesale: nothing deep to reach
                 ta = '*%d:%s:%s:%s' % (depth, op.hex(), la.hex(), cl.hex())
                 tb = '*%d:%s:%s:%s' % (depth, op.hex(), lb.hex(), cl.hex())
-                if prop == 'C17':
+                if prop == 'C15':
+                    if la[:1] in b'{[' or lb != b'"y"' and lb != b'2':
+                        continue
+                    tokp = (b'/0' if op == b'[' else b'/a') * depth
+                    ops = ['parse 1 2 %s 0' % ta, 'getp 2 1 %s 1' % hx(tokp), 'findp 1 2', 'getp 3 1 %s 1' % hx(tokp + b'/0'), 'getp 3 1 %s 1' % hx(tokp[:-2]), 'del 1']
+                    exp = {1: [str(depth)], 2: [hx(tokp)], 3: ['nil'], 4: [str(depth - 1)]}
+                    nonzero = None
+                elif prop == 'C16':
+                    if la[:1] in b'{[' or lb != b'"y"':
+                        continue
+                    tokp = (b'/0' if op == b'[' else b'/a') * depth
+                    patch = ('a3;o3;k6f70;s%s;k70617468;s%s;k76616c7565;s79;' % (b'replace'.hex(), tokp.hex())
+                             + 'o3;k6f70;s%s;k70617468;s%s;k76616c7565;s79;' % (b'test'.hex(), tokp.hex())
+                             + 'o3;k6f70;s%s;k66726f6d;s%s;k70617468;s%s;' % (b'copy'.hex(), tokp.hex(), (tokp[:-2] + (b'/-' if op == b'[' else b'/zz')).hex()))
+                    want = lb if op != b'[' else None
+                    ops = ['parse 1 2 %s 0' % ta, 'build 2 ' + patch, 'patch 1 2 1', 'chk 1', 'getp 3 1 %s 1' % hx(tokp), 'gsv 3', 'del 1', 'del 2']
+                    exp = {2: ['0'], 4: [str(depth)], 5: [hx(b'y')]}
+                    nonzero = None
+                elif prop == 'C17':
                     ops = ['parse 1 2 %s 0' % ta, 'parse 2 2 %s 0' % tb, 'genp 3 1 2 1', 'size 3', 'parse 4 2 %s 0' % ta, 'patch 4 3 1', 'cmp 4 2 1', 'chk 1', 'chk 2', 'del 1', 'del 2', 'del 3', 'del 4']
                     exp = {2: ['p'], 5: ['0'], 6: ['1']}
                     nonzero = 3
@@ -34,6 +52,20 @@ def deep_cases(prop):
                     exp = {2: ['p'], 4: ['p'], 5: ['1']}
                     nonzero = None
                 out.append((ops, exp, nonzero, 'depth %d, %s -> %s' % (depth, la.decode(), lb.decode())))
+    if prop in ('C17', 'C18'):
+        # documents deeper than the parser allows can be built through the API: the innermost object
+        # loses / gains / changes a member
+        for depth in (1001, 1500):
+            for la, lb in (('o2;k61;n3ff0000000000000,1;k62;n4000000000000000,2;', 'o1;k61;n3ff0000000000000,1;'), ('o1;k61;t', 'o2;k61;tk6e6577;s78;'), ('o1;k61;s78;', 'o1;k61;s79;')):
+                if prop == 'C17':
+                    ops = ['deepchain 1 o %d 0 %s' % (depth, la), 'deepchain 2 o %d 0 %s' % (depth, lb), 'genp 3 1 2 1', 'size 3', 'deepchain 4 o %d 0 %s' % (depth, la), 'patch 4 3 1', 'cmp 4 2 1', 'chk 1', 'chk 2', 'del 1', 'del 2', 'del 3', 'del 4']
+                    exp = {2: ['p'], 5: ['0'], 6: ['1']}
+                    nonzero = 3
+                else:
+                    ops = ['deepchain 1 o %d 0 %s' % (depth, la), 'deepchain 2 o %d 0 %s' % (depth, lb), 'genm 3 1 2 1', 'deepchain 4 o %d 0 %s' % (depth, la), 'merge 5 4 3 1', 'cmp 5 2 1', 'chk 1', 'chk 2', 'del 1', 'del 2', 'del 3', 'del 5']
+                    exp = {2: ['p'], 4: ['p'], 5: ['1']}
+                    nonzero = None
+                out.append((ops, exp, nonzero, 'API-built depth %d, innermost %s -> %s' % (depth, la, lb)))
     return out
 
 
@@ -42,7 +74,7 @@ def plan(prop, tier):
     n = 16 if q else 64
     per = {'C15': 130, 'C16': 1300, 'C17': 650, 'C18': 900}[prop] if q else {'C15': 3500, 'C16': 35000, 'C17': 17000, 'C18': 24000}[prop]
     shards = [('utils', SEED * 1000 + i, per) for i in range(n)]
-    if prop in ('C17', 'C18'):
+    if prop in ('C15', 'C16', 'C17', 'C18'):
         shards.append(('deep', 0, 0))
     return ['asan', 'plain', 'efence'], shards
 
@@ -75,6 +107,8 @@ def gen_doc(rng, depth=0, maxdepth=4, nulls=True, long_arrays=False, keys=PTR_KE
     n = rng.choice([0, 1, 2, 3, 4, 6])
     o = Node('o')
     ks = rng.sample(keys, min(n, len(keys)))
+    if ks and rng.random() < 0.04:
+        ks[0] = rng.choice([b'K', b'~', b'/']) * rng.choice([127, 128, 129, 255, 256, 257, 1023, 1024])     # around typical fixed buffer sizes
     for k in ks:
         c = gen_doc(rng, depth + 1, maxdepth, nulls, long_arrays, keys)
         c.key = k
@@ -174,6 +208,26 @@ def case_c15(rng, cid):
         sprinkle_flags(rng, doc)      # constant keys / reference scalars must not change what a pointer designates
     ops = ['build 1 ' + to_tn(doc)]
     exp = {}
+    # move an object member to the end of an array elsewhere in the document: the library never
+    # clears the key of such an element, and pointers through it are index based all the same
+    for _ in range(rng.choice([0, 0, 1, 2])):
+        nodes = all_nodes(doc)
+        mem = [n for n in nodes if n.parent is not None and n.parent.kind == 'o']
+        if not mem:
+            break
+        m = rng.choice(mem)
+        inside = set(id(x) for x in all_nodes(m))
+        arrs = [a for a in nodes if a.kind == 'a' and id(a) not in inside and not a.ref]
+        if not arrs:
+            break
+        a = rng.choice(arrs)
+        ops += nav_ops(3, 1, doc, m.parent)
+        ops += nav_ops(4, 1, doc, m)
+        ops += nav_ops(5, 1, doc, a)
+        ops += ['detp 3 4 6', 'adda 5 6']
+        m.parent.kids.remove(m)
+        m.parent = a
+        a.kids.append(m)
     for p in pointer_variants(rng, doc):
         if 0 in p:
             continue
